@@ -196,3 +196,5 @@ def crash_sig(case, ex, where, tb):
     rng = random.Random(case["seed"])
     kind = rng.choice(KINDS)
     return "C09_crash:%s:%s@%s" % (kind, type(ex).__name__, where)
+
+RULE += (" " + 'Domains handed over as lists / tuples / ints / integer arrays; integrands at magnitudes 1e-12, 1e-9, 1e6.')
